@@ -7,6 +7,7 @@ pub mod proto;
 pub mod l2;
 pub mod l3;
 pub mod l1;
+pub mod mitm;
 
 pub fn dispatch() -> Option<ExitCode> {
     let args: Vec<String> = std::env::args().collect();
@@ -36,6 +37,8 @@ fn handle(toks: &[&str]) -> String {
         "l3" => l3::run(&toks[1..]).unwrap_or_else(|| "bad-op".to_string()),
         "yaml" => l1::yaml(&toks[1..]).unwrap_or_else(|| "bad-op".to_string()),
         "resolve" => l1::resolve(&toks[1..]).unwrap_or_else(|| "bad-op".to_string()),
+        "mitm" => mitm::run(&toks[1..]).unwrap_or_else(|| "bad-op".to_string()),
+        "mkframes" => mitm::mkframes(&toks[1..]).unwrap_or_else(|| "bad-op".to_string()),
         "filt" => l1::filt(&toks[1..]).unwrap_or_else(|| "bad-op".to_string()),
         "rpd" => l1::rpd(&toks[1..]).unwrap_or_else(|| "bad-op".to_string()),
         _ => "bad-op".to_string(),
